@@ -188,6 +188,7 @@ impl Report {
                 );
             }
         }
+        self.max("max_machine_stall_ms", crate::util::max_stall_ms(0, u64::MAX));
         let g = self.inner.lock().unwrap();
         let root = verif_root();
         let known = load_known(&root, &self.prop);
